@@ -10,7 +10,7 @@ PID = "C17"
 RULE = ("Hypothesis-generated cover-labelled networks (5..10 vertices quick / ..14 thorough, 2..9 motifs: cliques 2..4, "
         "cycles 3..5, chorded cycles incl. diamond and house, pairwise sharing at most one vertex, vertices in no motif "
         "allowed, relabelled ids) x iteration counts (0..40) x query histories of phi (0, 1 and generated) on one "
-        "object. Oracle: independent reference solver (own membership tables, brute-force motif expectation, Jacobi "
+        "object. Also 5-cliques, topology keys that are not the motif size, and fixed well-connected networks (Fano / AG(2,3) / two Fano planes bridged or disconnected). Oracle: independent reference solver (own membership tables, brute-force motif expectation, Jacobi "
         "sweeps from 0.5 until the sup-change is below 1e-10) compared within 1e-6 where it converged within iterations/4 sweeps; bounds [0,1]; "
         "S(0)=0; monotone in phi at every iteration count; every answer equals a fresh object's answer. Non-trivial = "
         "motif hypergraph has a cycle, >= 2 motif kinds, some queried phi with 0.01 < S < 0.99; distinct = canonical JSON")
@@ -23,6 +23,7 @@ SHAPES = {
     "clique2": (2, [(0, 1)]),
     "clique3": (3, list(combinations(range(3), 2))),
     "clique4": (4, list(combinations(range(4), 2))),
+    "clique5": (5, list(combinations(range(5), 2))),
     "cycle4": (4, [(0, 1), (1, 2), (2, 3), (0, 3)]),
     "cycle5": (5, [(0, 1), (1, 2), (2, 3), (3, 4), (0, 4)]),
     "diamond": (4, [(0, 1), (1, 2), (2, 3), (0, 3), (0, 2)]),
@@ -40,7 +41,7 @@ def network(draw, tier):
     used = []
     n = 0
     for _ in range(draw(st.integers(3, 8))):
-        shape = draw(st.sampled_from(["clique2", "clique2", "clique3", "clique3", "clique4", "cycle4", "cycle5", "diamond", "house", "chord6"]))
+        shape = draw(st.sampled_from(["clique2", "clique2", "clique3", "clique3", "clique3", "clique4", "cycle4", "cycle5", "diamond", "house", "chord6", "clique5"]))
         k = SHAPES[shape][0]
         chosen = []
         want = draw(st.sampled_from([2, 2, 2, 1, 1, 0])) if used else 0
@@ -71,6 +72,9 @@ def network(draw, tier):
             # motif ids are arbitrary integers
             "edge_order": draw(st.sampled_from(["by_motif", "round_robin", "reversed"])),
             "label_rot": draw(st.sampled_from([0, 0, 1, 2, 3])),
+            # the leading key of a label names the motif's topology; it need not be the number of vertices
+            "key": draw(st.sampled_from(["size", "size", "index", "offset", "per_edge"])),
+            "label_text": draw(st.sampled_from(["same", "same", "per_edge"])),
             "id_base": draw(st.sampled_from([0, 0, 250, 1000])), "id_step": draw(st.sampled_from([1, 1, 7]))}
 
 
@@ -91,7 +95,18 @@ def enumerated(tier, seed):
         # a 4-cycle whose vertices sit in different surroundings (non-uniform messages round the cycle)
         (18, [["clique3", t] for t in fano] + [["clique3", [7 + a for a in t]] for t in fano] +
              [["cycle4", [0, 14, 7, 15]], ["clique3", [14, 16, 17]]]),
+        # two components that both percolate: a Fano plane with a pendant chain (10 vertices) and, apart from it, a
+        # second Fano plane (7 vertices)
+        (17, [["clique3", t] for t in fano] + [["clique2", [0, 7]], ["clique2", [7, 8]], ["clique2", [8, 9]]] +
+             [["clique3", [10 + a for a in t]] for t in fano]),
     ]
+    out = []
+    # a 5-clique among the Fano triangles, topology keys numbered by kind instead of by size
+    for order, rel in (("round_robin", False), ("reversed", "big")):
+        out.append({"n": 11, "motifs": [["clique3", t] for t in fano] + [["clique5", [0, 7, 8, 9, 10]]], "relabel": rel,
+                    "phis": [0.9, 1.0], "iterations": 32, "edge_order": order, "id_base": 0, "id_step": 1, "label_rot": 1,
+                    "key": "index"})
+    k5 = list(out)
     out = []
     for n, motifs in nets:
         for order in ("round_robin", "reversed", "by_motif"):
@@ -99,12 +114,14 @@ def enumerated(tier, seed):
                 for rel in (False, "big"):
                     out.append({"n": n, "motifs": motifs, "relabel": rel, "phis": [0.9, 1.0] if tier == "quick" else [0.9, 0.7, 1.0, 0.0],
                                 "iterations": 32 if tier == "quick" else 48,
-                                "edge_order": order, "id_base": base, "id_step": step, "label_rot": 1 + (base // 250 + len(out)) % 3})
+                                "edge_order": order, "id_base": base, "id_step": step, "label_rot": 1 + (base // 250 + len(out)) % 3,
+                                "label_text": "per_edge" if len(out) % 4 == 1 else "same",
+                                "key": "per_edge" if len(out) % 4 == 3 else "size"})
     if tier == "thorough":
-        return out
+        return k5 + out
     # quick: both networks x {round_robin, reversed} x two id schemes, alternating label schemes
     keep = [c for c in out if c["edge_order"] != "by_motif" and c["id_base"] in (0, 1000)]
-    return [c for i, c in enumerate(keep) if (i % 2 == 0) == (c["relabel"] is False)]
+    return k5 + [c for i, c in enumerate(keep) if (i % 2 == 0) == (c["relabel"] is False)]
 
 
 ENUM_CHUNK = 1
@@ -129,8 +146,22 @@ def build(case):
             lnodes = lnodes[r:] + lnodes[:r]
             if len(lnodes) >= 4:
                 lnodes[1], lnodes[2] = lnodes[2], lnodes[1]
-        label = f"{k}-{lnodes}-{edges}-{uid}"
-        rows.append([(u, v, label) for u, v in edges])
+        key = {"size": k, "index": 1 + sorted(SHAPES).index(shape), "offset": k + 10, "per_edge": k}[case.get("key", "size")]
+        label = f"{key}-{lnodes}-{edges}-{uid}"
+        row = []
+        for ei, (u, v) in enumerate(edges):
+            lab_e = label
+            if case.get("key") == "per_edge":
+                # the leading key may differ between the edges of one motif (it names the edge's site in the motif)
+                lab_e = f"{key + ei % 2}-{lnodes}-{edges}-{uid}"
+            if case.get("label_text") == "per_edge":
+                # ... and so may the text: every edge lists the motif's members starting from its own end points, and
+                # the motif's edges starting from itself (same members, same edges, same id)
+                ln = [u, v] + [x for x in lnodes if x not in (u, v)]
+                le = edges[ei:] + edges[:ei]
+                lab_e = f"{lab_e.split('-')[0]}-{ln}-{le}-{uid}"
+            row.append((u, v, lab_e))
+        rows.append(row)
         mlist.append((nodes, edges))
     order = case.get("edge_order", "by_motif")
     if order == "round_robin":
@@ -248,6 +279,14 @@ def check(case):
     kinds = {m[0] for m in case["motifs"]}
     if any(not any(v in m[1] for m in case["motifs"]) for v in range(case["n"])):
         classes.add("vertex_in_no_motif")
+    if case.get("key", "size") != "size":
+        classes.add("topology_key_is_not_the_size")
+    if case.get("key") == "per_edge":
+        classes.add("topology_key_differs_between_edges_of_a_motif")
+    if case.get("label_text") == "per_edge":
+        classes.add("label_text_differs_between_edges_of_a_motif")
+    if any(sh == "clique5" for sh, _ in case["motifs"]):
+        classes.add("has_5_clique")
     if len(case["phis"]) >= 2:
         classes.add("query_history")
     hc = hyper_cycle(case)
